@@ -324,6 +324,11 @@ func (b *BlockWise[C]) sendEntityIncomplete(w *responsewriter.ResponseWriter[C],
 	w.SetMessage(sendMessage)
 }
 
+// isMethod reports whether code is a method code (0.01 - 0.31), i.e. the code of a request.
+func isMethod(code codes.Code) bool {
+	return code >= codes.GET && code < codes.Code(0x20)
+}
+
 func wantsToBeReceived(r *pool.Message) bool {
 	hasBlock1 := r.HasOption(message.Block1)
 	hasBlock2 := r.HasOption(message.Block2)
@@ -367,7 +372,10 @@ func (b *BlockWise[C]) Handle(w *responsewriter.ResponseWriter[C], r *pool.Messa
 	tokenStr := token.Hash()
 
 	sendingMessageCode, sendingMessageExist := b.getSendingMessageCode(tokenStr)
-	if !sendingMessageExist || wantsToBeReceived(r) {
+	// What is being sent under this token is continued only by its counterpart: a response we serve block by block
+	// by the peer's request for the next block, a request we upload by the peer's response. Tokens are scoped per
+	// direction, so a request of the peer may carry the token of a request of ours - the two are unrelated.
+	if !sendingMessageExist || wantsToBeReceived(r) || isMethod(sendingMessageCode) == isMethod(r.Code()) {
 		err := b.handleReceivedMessage(w, r, maxSZX, maxMessageSize, next)
 		if err != nil {
 			b.sendEntityIncomplete(w, token)
@@ -377,7 +385,11 @@ func (b *BlockWise[C]) Handle(w *responsewriter.ResponseWriter[C], r *pool.Messa
 	}
 	more, err := b.continueSendingMessage(w, r, maxSZX, maxMessageSize, sendingMessageCode)
 	if err != nil {
-		b.sendingMessagesCache.Delete(tokenStr)
+		// a request stays until its call returns (Do removes it): a confused or forged message of the peer must
+		// not take it away from under the call that is waiting for the answer
+		if !isMethod(sendingMessageCode) {
+			b.sendingMessagesCache.Delete(tokenStr)
+		}
 		b.errors(fmt.Errorf("continueSendingMessage(%v): %w", r, err))
 		return
 	}
@@ -439,6 +451,11 @@ func (b *BlockWise[C]) createSendingMessage(sendingMessage *pool.Message, maxSZX
 	sendMessage.ResetOptionsTo(sendingMessage.Options())
 	sendMessage.SetToken(token)
 	sendMessage.SetType(sendingMessage.Type())
+	if sendingMessage.Body() == nil {
+		// nothing to send in blocks (e.g. a request without a payload that the peer "continues")
+		b.cc.ReleaseMessage(sendMessage)
+		return nil, false, errors.New("message has no body")
+	}
 	payloadSize, err := sendingMessage.BodySize()
 	if err != nil {
 		b.cc.ReleaseMessage(sendMessage)
